@@ -26,8 +26,13 @@ def oracle_c18(seed, tier):
     return oracle_image.check_c18(seed, tier)
 
 
+def corr_products(seed, tier):
+    import corr_product
+    return corr_product.check(seed, tier)
+
+
 def checks(tier):
-    return [corr_readmeta, corr_layouts, oracle_c18]
+    return [corr_readmeta, corr_products, corr_layouts, oracle_c18]
 
 
 def replay(payload):
